@@ -8,6 +8,7 @@ evaluator when ORT has no kernel) and compares with torch eager.  thorough adds 
 from __future__ import annotations
 
 import collections
+import os
 
 from vf import explore
 from vf.props import c08_dom as D
@@ -30,7 +31,7 @@ ASSUMPTIONS = [
     "covered only end to end)",
 ]
 
-MAX_ITEM = 1500
+MAX_ITEM = 12000
 
 
 def plan(tier, seed):
@@ -38,34 +39,35 @@ def plan(tier, seed):
     drv = D.driver_for(tier)
     by_op = collections.OrderedDict()
     for _, case in explore.explore(drv, bound=0, stats=st):
-        by_op.setdefault((case["fam"], case["op"]), []).append(case)
+        by_op.setdefault((case["fam"], case["op"]), collections.Counter())[case["f"].get("dtype", "")] += 1
     items = []
-    for (fam, op), cases in by_op.items():
-        if len(cases) <= MAX_ITEM:
-            items.append({"kind": "op", "fam": fam, "op": op, "part": "", "cases": cases})
+    # items carry no cases: a worker re-enumerates the overload's cases with the same driver (small replays)
+    for (fam, op), per_dtype in by_op.items():
+        n = sum(per_dtype.values())
+        if n <= MAX_ITEM:
+            items.append({"kind": "op", "tier": tier, "fam": fam, "op": op, "part": "", "ncases": n})
         else:
             # split by the dtype feature; the split feature then stays exact in finding classes
-            groups = collections.OrderedDict()
-            for cs in cases:
-                groups.setdefault(cs["f"].get("dtype", ""), []).append(cs)
-            for k, g in groups.items():
-                for j in range(0, len(g), MAX_ITEM * 2):
-                    items.append({"kind": "op", "fam": fam, "op": op, "part": f"{k}#{j}", "cases": g[j:j + MAX_ITEM * 2]})
-    if tier == "thorough":
+            for k, m in per_dtype.items():
+                items.append({"kind": "op", "tier": tier, "fam": fam, "op": op, "part": k, "ncases": m})
+    e_stats = None
+    if tier == "thorough" and not os.environ.get("C08_FAMILIES"):
         from vf.props import c08_e2e
         e_items, e_stats = c08_e2e.plan()
+        for it in e_items:
+            it["ncases"] = len(it["cases"]) * 150  # an export costs ~150 traces
         items.extend(e_items)
-    else:
-        e_stats = None
     # balance: deal big items first so that round-robin shards get similar totals
-    items.sort(key=lambda it: -len(it["cases"]))
+    items.sort(key=lambda it: -it["ncases"])
     d = st.as_dict()
     d["exhaustive"] = not st.capped
     d["dimensions"] = {k: len(v) for k, v in st.dim_hist.items()}
     d["items"] = len(items)
-    d["cases"] = sum(len(it["cases"]) for it in items)
+    d["families"] = sorted({it["fam"] for it in items})
+    d["cases"] = sum(it["ncases"] for it in items if it["kind"] == "op")
     if e_stats:
         d["e2e"] = e_stats
+        d["cases"] += e_stats["leaves"]
         d["states"] += e_stats["states"]
         d["transitions"] += e_stats["transitions"]
         d["leaves"] += e_stats["leaves"]
